@@ -149,6 +149,8 @@ def engine_project(trace):
                 e = {"ev": "Registered", "h": d["h"], "idx": d["b"], "k": d["a"]}
             elif ev == "Sys" and site == "cli.dup" and d["err"] == "nil" and cur["client"]:
                 e = {"ev": "Dup", "idx": d["fd"]}
+            elif ev == "Sys" and site == "ln.close" and not cur["client"]:
+                e = {"ev": "LnClose"}
             elif ev == "Hook" and site == "loop.closed":
                 e = {"ev": "LoopClosed", "idx": d["a"]}
             elif ev == "Hook" and site == "eng.stop":
@@ -219,7 +221,7 @@ def engine_traces(ctx, trace, what):
         with open(cfg, "w") as f:
             f.write("INIT TInit\nNEXT TNext\nCONSTANTS NLoops = %d MaxConns = %d MaxRegs = %d ReusePort = %s Ticker = %s ClientMode = %s\n"
                     "  Sources = {\"stop\", \"open\", \"traffic\", \"close\", \"tick\", \"boot\"}\n"
-                    "INVARIANTS OnShutdownOnce AllOpenedClosedBeforeReturn NothingRunsAfterReturn InShutdownMeansDone QueuedIsInQueue\n"
+                    "INVARIANTS OnShutdownOnce AllOpenedClosedBeforeReturn NothingRunsAfterReturn InShutdownMeansDone QueuedIsInQueue ListenersOutliveLoops\n"
                     "POSTCONDITION Accepted\nCHECK_DEADLOCK FALSE\n"
                     % (lv["loops"], nconn if lv["client"] else max(nconn, 1), nreg, "TRUE" if lv["reuseport"] else "FALSE", "TRUE" if lv["ticker"] else "FALSE",
                        "TRUE" if lv["client"] else "FALSE"))
